@@ -490,6 +490,43 @@ func FCapture2(limit int) (limit2 string) {
 
 func FCaptureAll() string { return FCapture() + FCapture2(4) }
 `, "FCaptureAll"},
+		{"method-named-like-the-injector", `
+func (t Thing) InitThing() string { return "method" + itoa(t.A) }
+
+type starter interface{ InitThing() string }
+
+func FMethodNamed() string {
+	var x interface{} = Thing{A: 4}
+	if s, ok := x.(starter); ok {
+		return s.InitThing()
+	}
+	return "no such method"
+}
+`, "FMethodNamed"},
+		{"local-const-type-typeparam-named-like-generated-import", `
+type labelT string
+
+func (l labelT) Name() string { return "local " + string(l) }
+
+func pick[cfg any](x cfg) cfg { return x }
+
+func FLocalKinds() string {
+	res := acfg.Config{N: 1}.Describe()
+	{
+		const cfg labelT = "const"
+		res += cfg.Name()
+	}
+	{
+		type cfg struct{ V int }
+		v := cfg{V: 5}
+		res += itoa(v.V)
+	}
+	return res + itoa(pick[int](acfg.Default))
+}
+`, "FLocalKinds"},
+		{"aliased-import-used-only-by-copied-code", `
+func FOnly() string { return only.Word + itoa(only.Twice(4)) }
+`, "FOnly"},
 		{"local-named-like-generated-import", `
 func FShadow() string {
 	cfg := 5
@@ -658,7 +695,11 @@ func c15Files(rows []c15Row) map[string]string {
 		decls.WriteString(r.decls)
 		fmt.Fprintf(&calls, "\tvt.Note(%q + \"=\" + %s())\n", r.name, r.f)
 	}
-	wire := "//go:build wireinject\n// +build wireinject\n\npackage p\n\nimport (\n\tacfg \"{{ROOT}}/alpha/cfg\"\n\tbcfg \"{{ROOT}}/beta/cfg\"\n\t. \"{{ROOT}}/dotpkg\"\n\t\"github.com/google/wire\"\n)\n\n" +
+	onlyImp := ""
+	if strings.Contains(decls.String(), "only.") {
+		onlyImp = "\tonly \"{{ROOT}}/onlycopied\"\n"
+	}
+	wire := "//go:build wireinject\n// +build wireinject\n\npackage p\n\nimport (\n\tacfg \"{{ROOT}}/alpha/cfg\"\n\tbcfg \"{{ROOT}}/beta/cfg\"\n\t. \"{{ROOT}}/dotpkg\"\n" + onlyImp + "\t\"github.com/google/wire\"\n)\n\n" +
 		"func InitThing() Thing {\n\tpanic(wire.Build(acfg.NewA, bcfg.NewB, newThing))\n}\n\nfunc newThing(a int, b bcfg.B) Thing { return Thing{A: a, B: b.V + DotConst*0} }\n" + decls.String()
 	driver := "package p\n\nimport \"example.com/m/vt\"\n\nfunc VerifDrive() {\n\tvt.Case(\"{{CASE}}\")\n" + calls.String() + "\tfunc() {\n\t\tdefer func() { recover() }()\n\t\tt := InitThing()\n\t\tvt.Note(\"thing=\" + itoa(t.A) + itoa(t.B))\n\t}()\n}\n"
 	return map[string]string{
@@ -668,6 +709,7 @@ func c15Files(rows []c15Row) map[string]string {
 		"alpha/cfg/cfg.go": c15LibA,
 		"beta/cfg/cfg.go":  c15LibB,
 		"dotpkg/dot.go":    c15Dot,
+		"onlycopied/o.go":  "package onlycopied\n\nvar Word = \"only\"\n\nfunc Twice(x int) int { return 2 * x }\n",
 	}
 }
 
@@ -682,7 +724,7 @@ func copiedDecls(f *ast.File) []ast.Decl {
 			}
 			out = append(out, d)
 		case *ast.FuncDecl:
-			if d.Name.Name == "InitThing" {
+			if d.Name.Name == "InitThing" && d.Recv == nil {
 				continue
 			}
 			out = append(out, d)
